@@ -308,6 +308,7 @@ type pmRun struct {
 	sigFirstAt      [][]int64
 	wg              sync.WaitGroup
 	mu              sync.Mutex
+	sentMsgs        [][]int // every BlocksMsg handed to the node (scripted and served): block indexes in message order
 }
 
 func decodeBlocks(cs *PMCase) ([]*types.Block, [][]types.SignData, error) {
@@ -526,11 +527,18 @@ func (x *pmRun) serveLoop(p *sPeer) {
 
 func (x *pmRun) sendBlocks(p *sPeer, refs []BlockRef, served bool) bool {
 	var bs types.Blocks
+	var idxs []int
+	defer func() {
+		x.mu.Lock()
+		x.sentMsgs = append(x.sentMsgs, idxs)
+		x.mu.Unlock()
+	}()
 	for _, r := range refs {
 		if r.Idx < 0 || r.Idx >= len(x.blocks) {
 			continue
 		}
 		b := x.blocks[r.Idx]
+		idxs = append(idxs, r.Idx)
 		bs = append(bs, wireBlock(b, pick(x.sigs[r.Idx], r.Embed)))
 		x.mu.Lock()
 		if x.deliveredAt[r.Idx] == 0 {
@@ -987,6 +995,22 @@ func (x *pmRun) judgeChain(expCur, expSta *types.Block, used, budget int64) {
 				shape = "block-before-parent"
 			}
 			at, errs := x.cp.insertedAt(b.Hash())
+			// did a message carry it behind a block whose insertion returned an error?
+			behind := ""
+			x.mu.Lock()
+			for _, msg := range x.sentMsgs {
+				for pos, j := range msg {
+					if j != idx {
+						continue
+					}
+					for _, e := range msg[:pos] {
+						if _, es := x.cp.insertedAt(x.blocks[e].Hash()); len(es) > 0 {
+							behind = fmt.Sprintf("; a BlocksMsg carried it behind block %d, for which InsertBlock returned %v although that block is in the chain: %v", e+1, es, x.V.BC.HasBlock(x.blocks[e].Hash()))
+						}
+					}
+				}
+			}
+			x.mu.Unlock()
 			switch {
 			case cached[b.Hash()]:
 				fate = "stuck-in-cache"
@@ -994,10 +1018,12 @@ func (x *pmRun) judgeChain(expCur, expSta *types.Block, used, budget int64) {
 				fate = "insert-refused"
 			case at != 0:
 				fate = "inserted-but-not-current"
+			case behind != "":
+				fate = "rest-of-message-dropped-after-insert-error"
 			default:
 				fate = "lost-from-cache"
 			}
-			detail = fmt.Sprintf("first missing block: height %d (delivered %s; insert errors %v)", b.Height(), shape, errs)
+			detail = fmt.Sprintf("first missing block: height %d (delivered %s; insert errors %v%s)", b.Height(), shape, errs, behind)
 		}
 		x.vs.viol("C20/not-converged:current:"+shape+":"+fate,
 			fmt.Sprintf("after every message was delivered and %d drains of the block cache (budget %d) the node's current block is height %d, the in-order twin's is %d; %s; block cache slots now: %v; mode %s", used, budget, cur.Height(), expCur.Height(), detail, cachedHeights, x.cs.Mode), x.cs)
